@@ -113,9 +113,10 @@ func vpRequesters(g *vgraph) []int {
 // family P: pile-up builds
 
 type vpRelease struct {
-	Label   int   `json:"label"`
-	Blocked []int `json:"requesters"` // targets parked in start(label) when its mutex was released
-	Idle    bool  `json:"idle"`       // the target had not been started yet
+	Label   int    `json:"label"`
+	Blocked []int  `json:"requesters"` // targets parked in start(label) when its mutex was released
+	Idle    bool   `json:"idle"`       // the target had not been started yet
+	Style   string `json:"style"`      // together: plain Unlock; fifo-handoff: the mutex is first put into its hand-off mode
 }
 
 type vpInfo struct {
@@ -213,7 +214,7 @@ func vpExec(r *vrun, holdKind, pickKind int, rng *rand.Rand, timeout time.Durati
 		w.targets = append(w.targets, &vtarget{w, l})
 	}
 	res := &vresult{capacityEnd: -1}
-	info := &vpInfo{Run: r.id, Hold: vpHoldNames[holdKind], Pick: []string{"most", "random"}[pickKind], Releases: []vpRelease{}, Unused: []int{}}
+	info := &vpInfo{Run: r.id, Hold: vpHoldNames[holdKind], Pick: []string{"most", "random", "most+fifo-handoff", "random+fifo-handoff"}[pickKind], Releases: []vpRelease{}, Unused: []int{}}
 	ctl := &vpCtl{calls: map[string][]string{}}
 	old := runtime.GOMAXPROCS(r.procs)
 	defer runtime.GOMAXPROCS(old)
@@ -259,6 +260,9 @@ func vpExec(r *vrun, holdKind, pickKind int, rng *rand.Rand, timeout time.Durati
 	}()
 
 	const settle = 150 * time.Microsecond
+	const vpStarve = 1300 * time.Microsecond
+	handoff := pickKind >= 2
+	pickKind %= 2
 	began := time.Now()
 	last, lastChange := ctl.events.Load(), time.Now()
 	quiet := 0
@@ -312,7 +316,21 @@ func vpExec(r *vrun, holdKind, pickKind int, rng *rand.Rand, timeout time.Durati
 		}
 		t := held[pick]
 		n, _ := strconv.Atoi(pick)
-		info.Releases = append(info.Releases, vpRelease{Label: n, Blocked: parked[pick], Idle: t.status == statusIdle})
+		style := "together"
+		if handoff && len(parked[pick]) >= 2 {
+			// FIFO hand-off: once a waiter of a sync.Mutex has waited for more than a millisecond and finds the mutex taken
+			// again when it wakes up, the mutex passes from each Unlock directly to the longest waiter, and a goroutine that
+			// locks again queues behind all of them.  Released like this, every parked requester runs its first critical
+			// section of start() before any of them gets a second one.
+			if time.Since(lastChange) < vpStarve {
+				continue
+			}
+			style = "fifo-handoff"
+			t.m.Unlock()
+			t.m.Lock()
+			time.Sleep(200 * time.Microsecond)
+		}
+		info.Releases = append(info.Releases, vpRelease{Label: n, Blocked: parked[pick], Idle: t.status == statusIdle, Style: style})
 		delete(held, pick)
 		t.m.Unlock()
 		lastChange, quiet = time.Now(), 0
@@ -572,7 +590,7 @@ func TestVerifC04Pileup(t *testing.T) {
 	add := func(g *vgraph, k, hold int) {
 		id++
 		jobs = append(jobs, job{&vrun{id: id, g: g, k: k, procs: procsChoices[rng.Intn(len(procsChoices))], seed: rng.Uint64()},
-			hold, rng.Intn(2)})
+			hold, rng.Intn(4)})
 	}
 	for rep := 0; rep < repeat; rep++ {
 		for gi, g := range graphs {
